@@ -391,6 +391,48 @@ class LatentMutation(Case):
         return obs
 
 
+class LatentRebuild(Case):
+    """EvolvableNetwork.add/remove_latent_node followed by the REAL recreate_network and a forward pass, for every small
+    configuration (all integers are decided up front by forking, so real layers can be built on every path): the rebuilt
+    encoder emits the new latent width and the network still maps a batch to outputs of its shape.  Variants: the default
+    encoder, and an encoder given as encoder_cls / encoder_config (the custom-encoder branch of recreate_encoder)."""
+    functions = (EvolvableNetwork.add_latent_node, EvolvableNetwork.remove_latent_node, EvolvableNetwork.recreate_encoder, EvolvableNetwork.recreate_network)
+    stubs = ("none: real QNetwork, real rebuild, real forward pass",)
+    assumptions = ("1 <= min_latent_dim < max_latent_dim <= 6, min <= latent_dim <= max, 1 <= numb_new_nodes <= 3",)
+
+    def __init__(self, method, custom):
+        self.method, self.custom = method, custom
+        self.name = f"latent-rebuild-{method}-{'custom-encoder_cls' if custom else 'default-encoder'}"
+        self.site = f"EvolvableNetwork.{method}/rebuild" + ("-custom-encoder" if custom else "")
+        self.exception_site = self.site
+        self.bounds = {"encoder": "encoder_cls=EvolvableMLP with its own config" if custom else "default", "symbolic": "latent_dim, min/max latent dim, numb_new_nodes (each decided by forking; 1..6 / 1..3)"}
+
+    def run(self, v):
+        ld, mn, mx, n = v.int("latent_dim"), v.int("min_latent_dim"), v.int("max_latent_dim"), v.int("numb_new_nodes")
+        v.assume(conj(mn >= 1, mn < mx, mx <= 6, ld >= mn, ld <= mx, n >= 1, n <= 3))
+        ld, mn, mx, n = (x.__index__() if isinstance(x, Sym) else int(x) for x in (ld, mn, mx, n))
+        torch.manual_seed(1)
+        kw = dict(latent_dim=ld, min_latent_dim=mn, max_latent_dim=mx, head_config={"hidden_size": [4]})
+        try:
+            if self.custom:
+                m = QNetwork(spaces.Box(-1, 1, (2,)), spaces.Discrete(2), encoder_cls=EvolvableMLP,
+                             encoder_config={"num_inputs": 2, "num_outputs": ld, "hidden_size": [4]}, **kw)
+            else:
+                m = QNetwork(spaces.Box(-1, 1, (2,)), spaces.Discrete(2), encoder_config={"hidden_size": [4]}, **kw)
+        except AssertionError as ex:
+            raise AssumptionFailed(f"constructor rejects the configuration: {ex}")
+        getattr(m, self.method)(numb_new_nodes=n)
+        post = m.latent_dim
+        new = ld + n if self.method == "add_latent_node" else ld - n
+        inside = new < mx if self.method == "add_latent_node" else new > mn
+        res = [Ob("latent-dim-within-bounds", mn <= post <= mx, site=self.site),
+               Ob("applied-exactly-when-strictly-inside-the-bound", (not inside) or post == new, site=self.site)]
+        enc_out = getattr(m.encoder, "num_outputs", None)
+        res.append(Ob("rebuilt-encoder-emits-the-new-latent-width", enc_out == post, site=self.site))
+        res.append(Ob("network-rebuilds-and-maps-a-batch-to-finite-outputs-of-its-shape", forward_ok(m, torch.zeros(3, 2), 2), site=self.site))
+        return res
+
+
 def cases(tier):
     cs = []
     for meth in ("add_layer", "remove_layer"):
@@ -403,6 +445,7 @@ def cases(tier):
            CNNMutation("add_layer", (1,)), CNNMutation("change_kernel", (1, 1, 1))]
     cs += [LatentMutation("add_latent_node", True), LatentMutation("add_latent_node", False), LatentMutation("remove_latent_node", True),
            LatentMutation("remove_latent_node", False)]
+    cs += [LatentRebuild("add_latent_node", True), LatentRebuild("remove_latent_node", True), LatentRebuild("add_latent_node", False)]
     if tier == "thorough":
         for meth in ("add_layer", "remove_layer", "add_node", "remove_node"):
             cs += [MLPMutation(meth, 3, False)]
